@@ -75,7 +75,7 @@ PushFrame(r, round) == <<26, 51, 255, round, 0, 0, 0, r, 40>> \o PushPayload(r, 
 StepKinds == <<"new", "new", "new", "dupother", "dupother", "dupsame", "bad", "modeac", "status">>
 GapBag == <<"zero", "dup", "dup", "mid", "mid", "far">>
 ChunkBag == <<"whole", "whole", "dribble", "esc", "k7", "straddle">>
-FilterClasses == <<"absent", "absent", "absent", "some", "some", "empty", "other">>
+FilterClasses == <<"absent", "absent", "absent", "absent", "some", "some", "some", "empty", "other">>
 
 VARIABLES gw, gnrx, gvia, gdfc, gacc, gchunk, gn, gsteps, gpend, gdone
 gvars == <<gw, gnrx, gvia, gdfc, gacc, gchunk, gn, gsteps, gpend, gdone>>
